@@ -6,7 +6,7 @@
    looking at the fetcher's tables; [reachT]; [pass_pending]; [owed]).  Proofs: proofs/FetcherProofs.v. *)
 From Coq Require Import NArith ZArith List Bool.
 From LV Require Import model.Fetcher spec.FetcherSpec proofs.FetcherProofs proofs.FetcherLiveness.
-From LV Require Import model.Workers proofs.WorkersProofs.
+From LV Require Import model.Workers proofs.WorkersProofs model.FetcherSim.
 Import ListNotations.
 
 (* SAFETY, for every configuration and EVERY event sequence (any interleaving of announcements,
@@ -158,6 +158,15 @@ Example C16_response_nonvacuous :
   snd (run true cfg_ex ex_resp_state ex_resp_trace) = [(400%Z, (1%N, [7%N]))].
 Proof. exact ex_resp_hyps. Qed.
 
+(* The scheduler that generates the model's own log of a script (model/FetcherSim.v, evaluated against
+   spec_check on every case) is not a second model: the state it ends in is the state [run] reaches on
+   the event trace it chose, and on that trace OnlyInterested answers with ids of the batch, so
+   C16_safety (and, for fair traces, C16_liveness) speak about its behaviours. *)
+Theorem C16_scheduler_is_run : forall c fuel sc,
+  let s := sim_fetcher c fuel sc in
+  fs_st s = fst (run true c (init 0%Z) (rev (fs_tr s))) /\ answers_sublist (rev (fs_tr s)).
+Proof. exact sim_fetcher_is_run. Qed.
+
 (* ---------- utils/workers: the pool the request closures are handed to (model/Workers.v) ---------- *)
 (* For every sequence of Enqueue / worker-select / task-end / close(quit) / Drain events, with any
    outcome of the random choice Go makes between two ready select cases: a closure is started at most
@@ -198,6 +207,7 @@ Print Assumptions C16_liveness_fetching_was_requested_partial.
 Print Assumptions C16_liveness_response_partial.
 Print Assumptions C16_liveness.
 Print Assumptions C16_liveness_unsuspend.
+Print Assumptions C16_scheduler_is_run.
 Print Assumptions C16_workers_run_at_most_once.
 Print Assumptions C16_workers_nothing_after_stop.
 Print Assumptions C16_workers_enqueue_after_quit_full.
